@@ -30,7 +30,7 @@ func checkC12(c *Ctx) {
 				}
 				accepting := false
 				for _, pc := range p.Calls() {
-					if pc.Is(sa.connAck) && connAckCode(pc.Call) == 0 {
+					if pc.Is(sa.connAck) && connAckCodeOn(p, pc.Call) == 0 {
 						accepting = true
 					}
 				}
